@@ -48,6 +48,7 @@ class CsClass:
         self.members: List[dict] = []      # enum: {name, value}
         self.statics: Dict[str, str] = {}  # static string constants
         self.static_dups: List[str] = []
+        self.odd_members: List[str] = []
 
 
 def split_params(s: str) -> List[str]:
@@ -219,6 +220,11 @@ def parse_file(fname: str, text: str, strict=None, malformed: Optional[List[str]
         if strict is not None and cur.name not in strict:
             pending_attrs = []
             continue  # hand-written special classes: not consumed by the oracle
+        if re.search(r"\{\s*get;", ln):
+            # a property that does not have the shape of a generated data member (not public, no accessor pair...)
+            cur.odd_members.append(ln)
+            pending_attrs = []
+            continue
         raise HarnessError(f"csparse: {fname}: class {cur.name}: unexpected line {ln!r}")
     return out
 
@@ -373,6 +379,9 @@ class CsOracle:
             self.fail("duplicate-class", d, "declared twice")
         for msg in self.malformed:
             self.fail("malformed-source", msg.split(":")[0], msg)
+        for c in self.classes.values():
+            for ln in c.odd_members:
+                self.fail("odd-member", c.name, f"property that is not a generated data member (public, attribute-tagged auto-property): {ln[:100]!r}")
         self.evaluations += 1
         for name in m.structs:
             if name.startswith("_"):
